@@ -3,6 +3,7 @@
 package absnfs
 
 import (
+	"runtime"
 	"fmt"
 	"os"
 	"path"
@@ -13,6 +14,7 @@ import (
 
 	"github.com/anishathalye/porcupine"
 	"verif.local/lib/evid"
+	"verif.local/lib/refs"
 )
 
 // C21: attribute and directory caches behave as bounded TTL LRU maps.
@@ -86,7 +88,7 @@ func (f vfFI) Sys() interface{}   { return nil }
 
 func TestVerif_C21(t *testing.T) {
 	rec := evid.New("C21")
-	rec.Rule = "seeded 300-op sequences over Put/PutNegative/Get/Invalidate/InvalidateNegativeInDir/Resize/UpdateTTL/ConfigureNegativeCaching/Clear and clock advances, capacities {1,2,3,8}, keys with parent/child/sibling-prefix relations, for AttrCache and DirCache; exact comparison with a reference LRU when nothing expires, safety clauses in the expiry regime; copy isolation by mutating inputs and outputs; concurrent histories (8 goroutines) checked per key by porcupine plus the size bound; distinct = (cache, regime, op, outcome) tuples"
+	rec.Rule = "seeded 300-op sequences over Put/PutNegative/Get/Invalidate/InvalidateNegativeInDir/Resize/UpdateTTL/ConfigureNegativeCaching/Clear and clock advances, capacities {1,2,3,8}, keys with parent/child/sibling-prefix relations, for AttrCache and DirCache; exact comparison with a reference LRU when nothing expires, safety clauses in the expiry regime; copy isolation by mutating inputs and outputs; concurrent histories (8 goroutines) checked per key by porcupine plus the size bound; a strict concurrent regime (capacity above the key count, clock frozen during a round, every key expired when a round begins, yields at the cache's own logging points) in which a miss needs an absent key; distinct = (cache, regime, op, outcome) tuples"
 	defer rec.Write()
 	if !vfVirtualClock {
 		rec.Infra("C21 needs the vclock build variant")
@@ -100,6 +102,10 @@ func TestVerif_C21(t *testing.T) {
 	conc := evid.Pick(30, 1500)
 	for s := 0; s < conc && rec.Violations() < 25; s++ {
 		vfC21Concurrent(rec, s)
+	}
+	strict := evid.Pick(40, 2500)
+	for s := 0; s < strict && rec.Violations() < 25; s++ {
+		vfC21ConcurrentStrict(rec, s)
 	}
 }
 
@@ -608,4 +614,136 @@ func vfC21Concurrent(rec *evid.Rec, s int) {
 	}
 	rec.Distinct(fmt.Sprintf("concurrent|cap=%d|%v", capy, res))
 	rec.Add("porcupine_histories", 1)
+}
+
+// vfYieldLogger is a structured logger whose Debug call yields the processor or sleeps a few
+// microseconds: the cache logs between its critical sections (after releasing the read lock, before
+// taking the write lock), so this widens exactly the windows a busy server has there.
+type vfYieldLogger struct {
+	n    atomic.Int64
+	seed int64
+}
+
+func (l *vfYieldLogger) Debug(msg string, fields ...LogField) {
+	n := l.n.Add(1)
+	switch (uint64(n)*2654435761 + uint64(l.seed)) % 5 {
+	case 0, 1:
+		runtime.Gosched()
+	case 2:
+		time.Sleep(time.Duration(1+n%30) * time.Microsecond)
+	}
+}
+func (l *vfYieldLogger) Info(msg string, fields ...LogField)  {}
+func (l *vfYieldLogger) Warn(msg string, fields ...LogField)  {}
+func (l *vfYieldLogger) Error(msg string, fields ...LogField) {}
+
+// vfC21ConcurrentStrict: the concurrent regime in which a miss has only two legitimate causes left.
+// Capacity exceeds the number of keys (nothing is ever evicted) and the clock stands still during
+// a round; every round starts with all keys stored and then expired (the clock is moved past the
+// TTL while nobody is running). So within a round a key is absent until somebody puts it, and a
+// value put by a completed Put must be returned by every later Get until an Invalidate: per key,
+// the history must be linearizable against a plain register with "absent".
+func vfC21ConcurrentStrict(rec *evid.Rec, s int) {
+	rng := evid.Rng(212122, int64(s))
+	now := time.Unix(1_800_000_000, 0)
+	vfClockSet(now)
+	srv, err := New(refs.New(), ExportOptions{Log: &LogConfig{Level: "debug", Output: "stderr"}})
+	if err != nil {
+		rec.Infra(err.Error())
+		return
+	}
+	defer srv.Close()
+	vfQuiet(srv)
+	srv.SetLogger(&vfYieldLogger{seed: rng.Int63()})
+	ttl := time.Minute
+	c := NewAttrCache(ttl, 16)
+	keys := vfCacheKeys[:2+rng.Intn(2)]
+	for round := 0; round < 5; round++ {
+		for i, k := range keys {
+			c.Put(k, &NFSAttrs{FileId: uint64(900000 + round*10 + i)})
+		}
+		now = now.Add(ttl + time.Second)
+		vfClockSet(now) // everything stored so far is expired now; the clock does not move during the round
+		var tick atomic.Int64
+		var mu sync.Mutex
+		var hist []porcupine.Operation
+		var wg sync.WaitGroup
+		for w := 0; w < 6; w++ {
+			wg.Add(1)
+			seed := rng.Int63()
+			go func(w int) {
+				defer wg.Done()
+				r := evid.Rng(seed, int64(w))
+				for i := 0; i < 8; i++ {
+					k := keys[r.Intn(len(keys))]
+					in := vfCIn{Key: k, Kind: []int{1, 1, 1, 0, 0, 2}[r.Intn(6)]}
+					var out vfCOut
+					call := tick.Add(1)
+					switch in.Kind {
+					case 0:
+						in.Val = uint64(round+1)*100000 + uint64(w)*1000 + uint64(i) + 1
+						c.Put(k, &NFSAttrs{FileId: in.Val})
+					case 1:
+						a, f := c.Get(k, srv)
+						out.Found = f
+						if a != nil {
+							out.Val = a.FileId
+						}
+					default:
+						c.Invalidate(k)
+					}
+					ret := tick.Add(1)
+					mu.Lock()
+					hist = append(hist, porcupine.Operation{ClientId: w, Input: in, Call: call, Output: out, Return: ret})
+					mu.Unlock()
+				}
+			}(w)
+		}
+		wg.Wait()
+		rec.Eval(len(hist))
+		model := porcupine.Model{
+			Partition: func(h []porcupine.Operation) [][]porcupine.Operation {
+				m := map[string][]porcupine.Operation{}
+				for _, o := range h {
+					k := o.Input.(vfCIn).Key
+					m[k] = append(m[k], o)
+				}
+				var out [][]porcupine.Operation
+				for _, v := range m {
+					out = append(out, v)
+				}
+				return out
+			},
+			Init: func() interface{} { return uint64(0) },
+			Step: func(st, in, out interface{}) (bool, interface{}) {
+				i, o := in.(vfCIn), out.(vfCOut)
+				switch i.Kind {
+				case 0:
+					return true, i.Val
+				case 2:
+					return true, uint64(0)
+				}
+				if !o.Found {
+					return st.(uint64) == 0, st
+				}
+				return st.(uint64) != 0 && o.Val == st.(uint64), st
+			},
+		}
+		res, _ := porcupine.CheckOperationsVerbose(model, hist, 60*time.Second)
+		switch res {
+		case porcupine.Illegal:
+			var lines []string
+			for _, o := range hist {
+				lines = append(lines, fmt.Sprintf("[%d,%d] w%d %+v -> %+v", o.Call, o.Return, o.ClientId, o.Input, o.Output))
+			}
+			rec.Violate("C21/attr/concurrent-history-not-linearizable-per-key/no-eviction-no-expiry-possible", fmt.Sprintf("round %d: %d operations over %d keys, capacity 16, clock frozen, every key expired when the round began: a stored value went missing (or a removed one came back) without eviction, expiry or invalidation", round, len(hist), len(keys)), map[string]any{"seq": s, "round": round, "history": lines})
+		case porcupine.Unknown:
+			rec.Inconclusive(1)
+		}
+		rec.Distinct(fmt.Sprintf("concurrent-strict|keys=%d|%v", len(keys), res))
+		rec.Add("porcupine_histories", 1)
+		if res == porcupine.Illegal {
+			return
+		}
+	}
 }
